@@ -86,6 +86,14 @@ func c02Specs(quick bool) []*SeqSpec {
 		specs = append(specs, &SeqSpec{Name: fmt.Sprintf("ramp-%d-holders", n), Cfg: cfg, Ramp: rampHolders(n), Alphabet: rampAlphabet(n), Depth: rd})
 	}
 	specs = append(specs, depthCeilingSpec("depth-ceiling", cfg, rd, false))
+	// two keys that share one slot of the key table (FastKeys 1: every key collides): the second key's manager lives
+	// in the overflow map; what happens to it when the slot's resident is released and recycled (a clock step later)
+	specs = append(specs, &SeqSpec{Name: "two-keys-one-slot", Cfg: cfg, Depth: d + 1, MaxStates: 400000, Alphabet: []SeqOp{
+		op(0, L(0, 1, 1, 0, 60, 0, 0)), op(0, U(0, 1, 1)),
+		op(1, L(0, 2, 2, 0, 60, 0, 2)), op(1, hapi.Cmd{Type: 2, Key: 2, Id: 2, Rcount: 1}), op(1, U(0, 2, 2)), op(0, U(0, 2, 3)),
+		op(0, L(0, 3, 3, 0, 60, 0, 0)), op(0, U(0, 3, 3)),
+		tick(3 * sec),
+	}})
 	// the ownership histories once more over REAL binary connections of a full node (pure tree), compared reply
 	// by reply and state by state with the in-memory execution (which the reference model judges above)
 	specs = append(specs, &SeqSpec{Name: "ownership-over-connections", Cfg: cfg, Alphabet: c02Alphabet(quick), Depth: d - 2, Full: true, NoDedupe: true, MaxStates: 400000})
